@@ -320,9 +320,10 @@ where
     ) -> Result<bool> {
         if IF_NEEDED {
             let needs_init = self.account_info().owner().fast_eq(&System::ID)
-                || self.account_data()?[..size_of::<OwnerProgramDiscriminant<T>>()]
-                    .iter()
-                    .all(|x| *x == 0);
+                || self
+                    .account_data()?
+                    .get(..size_of::<OwnerProgramDiscriminant<T>>())
+                    .is_some_and(|d| d.iter().all(|x| *x == 0));
             if !needs_init {
                 return Ok(false);
             }
